@@ -1,6 +1,7 @@
 import KtVerif.Spec.EndToEnd
 import KtVerif.Proofs.E2E2
 import KtVerif.Proofs.E2E2Float
+import KtVerif.Proofs.CgrZeroRun
 /-!
 # End to end (second batch)
 -/
@@ -57,6 +58,30 @@ theorem cgrF64_subsquare (S : Nat) (p q : List Nat) (l : List (Nat × Nat)) (hS 
     subsquareLo S cx ≤ a.1 ∧ a.1 ≤ subsquareLo S cx + S * f64One / 2 ^ q.length ∧
     subsquareLo S cy ≤ a.2 ∧ a.2 ≤ subsquareLo S cy + S * f64One / 2 ^ q.length :=
   E2E2.cgrF64_subsquare' S p q l (Nat.le_succ_of_le hj) hq h
+
+/-- one step towards the corner coordinate 0 halves the bound `S·2^(1074-z)` exactly -/
+theorem cgrMid_zero_step (S v z : Nat) (hS : S < 2 ^ 53) (hz : z ≤ 1073) (hv : v * 2 ^ z ≤ S * f64One) :
+    cgrMid 0 v * 2 ^ (z + 1) ≤ S * f64One :=
+  E2E2.cgrMid_zero_step' S v z hS hz hv
+
+/-- C11: after a prefix `p` and `z ≤ 1073` further bases `q` whose corner has x-coordinate 0 (A, C, a, c), the x-coordinate of the
+last point is at most `S / 2^z` — at any run length, also where the exact walk is no longer representable -/
+theorem cgrF64_zero_run_x (S : Nat) (p q : List Nat) (l : List (Nat × Nat)) (hS : 1 ≤ S) (hS2 : S < 2 ^ 52)
+    (hz : q.length ≤ 1073) (hq : q ≠ []) (hc : ∀ b ∈ q, ((cornerSpec b).getD (0, 0)).1 = 0)
+    (h : cgrF64 S (p ++ q) = some l) :
+    (l.getLastD (0, 0)).1 * 2 ^ q.length ≤ S * f64One :=
+  E2E2.cgrF64_zero_run_x' S p q l (Nat.lt_trans hS2 (by decide)) (Nat.le_succ_of_le hz) hq hc h
+
+/-- the same for y (corner y-coordinate 0: A, T, U, a, t, u) -/
+theorem cgrF64_zero_run_y (S : Nat) (p q : List Nat) (l : List (Nat × Nat)) (hS : 1 ≤ S) (hS2 : S < 2 ^ 52)
+    (hz : q.length ≤ 1073) (hq : q ≠ []) (hc : ∀ b ∈ q, ((cornerSpec b).getD (0, 0)).2 = 0)
+    (h : cgrF64 S (p ++ q) = some l) :
+    (l.getLastD (0, 0)).2 * 2 ^ q.length ≤ S * f64One :=
+  E2E2.cgrF64_zero_run_y' S p q l (Nat.lt_trans hS2 (by decide)) (Nat.le_succ_of_le hz) hq hc h
+
+-- non-vacuity of the corner hypotheses: A, C, a, c have corner x-coordinate 0; A, T, U, t have corner y-coordinate 0
+example : ∀ b ∈ [65, 67, 97, 99], ((cornerSpec b).getD (0, 0)).1 = 0 := by decide
+example : ∀ b ∈ [65, 84, 85, 116], ((cornerSpec b).getD (0, 0)).2 = 0 := by decide
 
 /-! ### non-vacuity (`decide +kernel`: kernel evaluation with GMP-accelerated `Nat` arithmetic, no axioms) -/
 
